@@ -113,6 +113,13 @@ class ShmWire(Harness):
         if {v: k for k, v in api.b2c.items()} != api.c2b or len(set(api.b2c.values())) != len(api.b2c):
             hr.failures.append(self._fail("tag-table-not-bijective", "c2b is not the inverse of b2c", {"class": None}, True))
         for tag, cname in sorted(model.b2c.items()):
+            # concrete boundary literals through the real code first (independent of the translator): whatever the
+            # encoder accepts has to come back unchanged
+            for lit in self._boundary_literals(api, model, cname):
+                ok, why = self.replay_roundtrip(api, lit)
+                obligations.append({"kind": "boundary-literal", "class": cname, "msg": repr(lit)[:80], "result": "differ" if ok else "agree", "has_fields": True})
+                if ok:
+                    hr.failures.append(self._fail(f"{cname}-roundtrip", f"{lit!r}: {why}", {"kind": "roundtrip", "class": cname, "fields": self._fields(lit)}, True))
             try:
                 self._class_obligations(model, api, cname, hr, check, obligations)
             except Untranslatable as u:
@@ -228,6 +235,19 @@ class ShmWire(Harness):
             else:
                 fields[fname] = VEnum(ann, z3.IntVal(v.value))
         return VObj(cname, fields)
+
+    def _boundary_literals(self, api, model, cname):
+        fl = model.fields_of(cname)
+        if not fl:
+            return []
+        cls = getattr(api, cname)
+        out = []
+        for sval, ival in [("é", 2**32), ("données", 2**63), ("a\u20acb", 2**64 - 1), ("\x7f", 2**64), ("ok", -1)]:
+            kw = {}
+            for fname, ann in fl:
+                kw[fname] = sval if ann == "str" else (ival if ann == "int" else list(getattr(api, ann))[0])
+            out.append(cls(**kw))
+        return out
 
     def _literals(self, api, model, cname):
         import itertools
